@@ -16,7 +16,7 @@ LEVEL_NOTE = ("Trusted: the generator's statement shapes are recognised by the t
               "alignment identifies the inserted numbers. The simulator contributes enumeration order, thread count and lock history.")
 RULE = ("case = one generated tree + configuration; 1 edit run (2 with the order re-permuted under another seed). Non-trivial = "
         "at least one ID inserted or range exhaustion reached; distinct = distinct (case index).")
-PROBES = ["id_zero_present", "boundary_ids", "range_exhausted", "lock_ahead", "lock_disabled", "lock_absent", "multi_file_inserts"]
+PROBES = ["slow_read", "id_zero_present", "boundary_ids", "range_exhausted", "lock_ahead", "lock_disabled", "lock_absent", "multi_file_inserts"]
 ASSUMPTIONS = ["lock, when used, is ahead of every ID in the tree (the property's precondition)"]
 DEADLINE = {"quick": 200, "thorough": 3000}
 U32 = 0xFFFFFFFF
@@ -59,6 +59,11 @@ def gen(rng):
     knobs = {"threads": rng.randrange(1, 5), "config_arg": rng.choice(["rel", "abs"])}
     knobs = scen.env_knobs(rng, knobs)
     plan = {"seed": rng.getrandbits(48) | 1, "perm": True, "faults": []}
+    if rng.random() < 0.012:
+        # a slow disk or network mount: one open / read of a source file takes seconds.  Nothing fails - the run is only
+        # slower, and its result must not depend on that.
+        plan["faults"] = [{"from": 1, "kinds": [rng.choice(["OPEN_R", "READ"])], "pre": "proj/src", "nth": rng.randrange(1, 5),
+                           "act": "stall", "frac": 6.5}]
     return wm, knobs, plan, lockmode
 
 
@@ -122,6 +127,8 @@ def run_case(rng, idx, tier, ctx):
     wm, knobs, plan, lockmode = gen(rng)
     viols, info = evaluate(wm, knobs, plan, ctx)
     ctx.probes["lock_" + info["lockmode"]] += 1
+    if plan["faults"]:
+        ctx.probes["slow_read"] += 1
     if 0 in set(world.wm_ids(wm).values()):
         ctx.probes["id_zero_present"] += 1
     if info["top"] >= U32 - 8:
